@@ -267,3 +267,22 @@ func TestSigmaExhaustive(t *testing.T) {
 	rec.Bulk(n, n-1, "sigma-exhaustive")
 	rec.Exhaustive(fmt.Sprintf("all strings over the %d-symbol class alphabet up to length %d (shard %d/%d) as key, message, field name and text value through Event/Context/Array/Dict/Fields/slices", len(lp.Sigma), maxLen, sh, nsh))
 }
+
+// FuzzPrograms: native coverage-guided fuzzing of the same property through rapid's
+// fuzz adapter (thorough tier only; the saved failing input is the reproducible unit).
+func FuzzPrograms(f *testing.F) {
+	f.Add([]byte{0})
+	f.Add([]byte("seed-corpus: any bytes drive the rapid generators"))
+	f.Fuzz(rapid.MakeFuzz(func(rt *rapid.T) {
+		cfg := lp.DefaultCfg()
+		cfg.Tree = true
+		cfg.MaxOps = 4
+		g := lp.NewG(rt, cfg)
+		p := g.Program(6, 4)
+		if msg := Check(p); msg != "" {
+			ev.SaveReplay("C01-fuzz", p)
+			fmt.Printf("VERIF-FAIL: %s\n", msg)
+			rt.Fatalf("%s", msg)
+		}
+	}))
+}
